@@ -50,7 +50,7 @@ class AttackPattern(_DomainObject):
         ('kill_chain_phases', ListProperty(KillChainPhase)),
         ('revoked', BooleanProperty(default=lambda: False)),
         ('labels', ListProperty(StringProperty)),
-        ('confidence', IntegerProperty()),
+        ('confidence', IntegerProperty(min=0, max=100)),
         ('lang', StringProperty()),
         ('external_references', ListProperty(ExternalReference)),
         ('object_marking_refs', ListProperty(ReferenceProperty(valid_types='marking-definition', spec_version='2.1'))),
@@ -80,7 +80,7 @@ class Campaign(_DomainObject):
         ('objective', StringProperty()),
         ('revoked', BooleanProperty(default=lambda: False)),
         ('labels', ListProperty(StringProperty)),
-        ('confidence', IntegerProperty()),
+        ('confidence', IntegerProperty(min=0, max=100)),
         ('lang', StringProperty()),
         ('external_references', ListProperty(ExternalReference)),
         ('object_marking_refs', ListProperty(ReferenceProperty(valid_types='marking-definition', spec_version='2.1'))),
@@ -116,7 +116,7 @@ class CourseOfAction(_DomainObject):
         ('description', StringProperty()),
         ('revoked', BooleanProperty(default=lambda: False)),
         ('labels', ListProperty(StringProperty)),
-        ('confidence', IntegerProperty()),
+        ('confidence', IntegerProperty(min=0, max=100)),
         ('lang', StringProperty()),
         ('external_references', ListProperty(ExternalReference)),
         ('object_marking_refs', ListProperty(ReferenceProperty(valid_types='marking-definition', spec_version='2.1'))),
@@ -144,7 +144,7 @@ class Grouping(_DomainObject):
         ('object_refs', ListProperty(ReferenceProperty(valid_types=["SCO", "SDO", "SRO"], spec_version='2.1'), required=True)),
         ('revoked', BooleanProperty(default=lambda: False)),
         ('labels', ListProperty(StringProperty)),
-        ('confidence', IntegerProperty()),
+        ('confidence', IntegerProperty(min=0, max=100)),
         ('lang', StringProperty()),
         ('external_references', ListProperty(ExternalReference)),
         ('object_marking_refs', ListProperty(ReferenceProperty(valid_types='marking-definition', spec_version='2.1'))),
@@ -174,7 +174,7 @@ class Identity(_DomainObject):
         ('contact_information', StringProperty()),
         ('revoked', BooleanProperty(default=lambda: False)),
         ('labels', ListProperty(StringProperty)),
-        ('confidence', IntegerProperty()),
+        ('confidence', IntegerProperty(min=0, max=100)),
         ('lang', StringProperty()),
         ('external_references', ListProperty(ExternalReference)),
         ('object_marking_refs', ListProperty(ReferenceProperty(valid_types='marking-definition', spec_version='2.1'))),
@@ -201,7 +201,7 @@ class Incident(_DomainObject):
         ('kill_chain_phases', ListProperty(KillChainPhase)),
         ('revoked', BooleanProperty(default=lambda: False)),
         ('labels', ListProperty(StringProperty)),
-        ('confidence', IntegerProperty()),
+        ('confidence', IntegerProperty(min=0, max=100)),
         ('lang', StringProperty()),
         ('external_references', ListProperty(ExternalReference)),
         ('object_marking_refs', ListProperty(ReferenceProperty(valid_types='marking-definition', spec_version='2.1'))),
@@ -234,7 +234,7 @@ class Indicator(_DomainObject):
         ('kill_chain_phases', ListProperty(KillChainPhase)),
         ('revoked', BooleanProperty(default=lambda: False)),
         ('labels', ListProperty(StringProperty)),
-        ('confidence', IntegerProperty()),
+        ('confidence', IntegerProperty(min=0, max=100)),
         ('lang', StringProperty()),
         ('external_references', ListProperty(ExternalReference)),
         ('object_marking_refs', ListProperty(ReferenceProperty(valid_types='marking-definition', spec_version='2.1'))),
@@ -292,7 +292,7 @@ class Infrastructure(_DomainObject):
         ('last_seen', TimestampProperty()),
         ('revoked', BooleanProperty(default=lambda: False)),
         ('labels', ListProperty(StringProperty)),
-        ('confidence', IntegerProperty()),
+        ('confidence', IntegerProperty(min=0, max=100)),
         ('lang', StringProperty()),
         ('external_references', ListProperty(ExternalReference)),
         ('object_marking_refs', ListProperty(ReferenceProperty(valid_types='marking-definition', spec_version='2.1'))),
@@ -335,7 +335,7 @@ class IntrusionSet(_DomainObject):
         ('secondary_motivations', ListProperty(OpenVocabProperty(ATTACK_MOTIVATION))),
         ('revoked', BooleanProperty(default=lambda: False)),
         ('labels', ListProperty(StringProperty)),
-        ('confidence', IntegerProperty()),
+        ('confidence', IntegerProperty(min=0, max=100)),
         ('lang', StringProperty()),
         ('external_references', ListProperty(ExternalReference)),
         ('object_marking_refs', ListProperty(ReferenceProperty(valid_types='marking-definition', spec_version='2.1'))),
@@ -380,7 +380,7 @@ class Location(_DomainObject):
         ('postal_code', StringProperty()),
         ('revoked', BooleanProperty(default=lambda: False)),
         ('labels', ListProperty(StringProperty)),
-        ('confidence', IntegerProperty()),
+        ('confidence', IntegerProperty(min=0, max=100)),
         ('lang', StringProperty()),
         ('external_references', ListProperty(ExternalReference)),
         ('object_marking_refs', ListProperty(ReferenceProperty(valid_types='marking-definition', spec_version='2.1'))),
@@ -490,7 +490,7 @@ class Malware(_DomainObject):
         ('sample_refs', ListProperty(ReferenceProperty(valid_types=['artifact', 'file'], spec_version='2.1'))),
         ('revoked', BooleanProperty(default=lambda: False)),
         ('labels', ListProperty(StringProperty)),
-        ('confidence', IntegerProperty()),
+        ('confidence', IntegerProperty(min=0, max=100)),
         ('lang', StringProperty()),
         ('external_references', ListProperty(ExternalReference)),
         ('object_marking_refs', ListProperty(ReferenceProperty(valid_types='marking-definition', spec_version='2.1'))),
@@ -546,7 +546,7 @@ class MalwareAnalysis(_DomainObject):
         ('sample_ref', ReferenceProperty(valid_types="SCO", spec_version='2.1')),
         ('revoked', BooleanProperty(default=lambda: False)),
         ('labels', ListProperty(StringProperty)),
-        ('confidence', IntegerProperty()),
+        ('confidence', IntegerProperty(min=0, max=100)),
         ('lang', StringProperty()),
         ('external_references', ListProperty(ExternalReference)),
         ('object_marking_refs', ListProperty(ReferenceProperty(valid_types='marking-definition', spec_version='2.1'))),
@@ -579,7 +579,7 @@ class Note(_DomainObject):
         ('object_refs', ListProperty(ReferenceProperty(valid_types=["SCO", "SDO", "SRO"], spec_version='2.1'), required=True)),
         ('revoked', BooleanProperty(default=lambda: False)),
         ('labels', ListProperty(StringProperty)),
-        ('confidence', IntegerProperty()),
+        ('confidence', IntegerProperty(min=0, max=100)),
         ('lang', StringProperty()),
         ('external_references', ListProperty(ExternalReference)),
         ('object_marking_refs', ListProperty(ReferenceProperty(valid_types='marking-definition', spec_version='2.1'))),
@@ -608,7 +608,7 @@ class ObservedData(_DomainObject):
         ('object_refs', ListProperty(ReferenceProperty(valid_types=["SCO", "SRO"], spec_version='2.1'))),
         ('revoked', BooleanProperty(default=lambda: False)),
         ('labels', ListProperty(StringProperty)),
-        ('confidence', IntegerProperty()),
+        ('confidence', IntegerProperty(min=0, max=100)),
         ('lang', StringProperty()),
         ('external_references', ListProperty(ExternalReference)),
         ('object_marking_refs', ListProperty(ReferenceProperty(valid_types='marking-definition', spec_version='2.1'))),
@@ -661,7 +661,7 @@ class Opinion(_DomainObject):
         ('object_refs', ListProperty(ReferenceProperty(valid_types=["SCO", "SDO", "SRO"], spec_version='2.1'), required=True)),
         ('revoked', BooleanProperty(default=lambda: False)),
         ('labels', ListProperty(StringProperty)),
-        ('confidence', IntegerProperty()),
+        ('confidence', IntegerProperty(min=0, max=100)),
         ('lang', StringProperty()),
         ('external_references', ListProperty(ExternalReference)),
         ('object_marking_refs', ListProperty(ReferenceProperty(valid_types='marking-definition', spec_version='2.1'))),
@@ -690,7 +690,7 @@ class Report(_DomainObject):
         ('object_refs', ListProperty(ReferenceProperty(valid_types=["SCO", "SDO", "SRO"], spec_version='2.1'), required=True)),
         ('revoked', BooleanProperty(default=lambda: False)),
         ('labels', ListProperty(StringProperty)),
-        ('confidence', IntegerProperty()),
+        ('confidence', IntegerProperty(min=0, max=100)),
         ('lang', StringProperty()),
         ('external_references', ListProperty(ExternalReference)),
         ('object_marking_refs', ListProperty(ReferenceProperty(valid_types='marking-definition', spec_version='2.1'))),
@@ -727,7 +727,7 @@ class ThreatActor(_DomainObject):
         ('personal_motivations', ListProperty(OpenVocabProperty(ATTACK_MOTIVATION))),
         ('revoked', BooleanProperty(default=lambda: False)),
         ('labels', ListProperty(StringProperty)),
-        ('confidence', IntegerProperty()),
+        ('confidence', IntegerProperty(min=0, max=100)),
         ('lang', StringProperty()),
         ('external_references', ListProperty(ExternalReference)),
         ('object_marking_refs', ListProperty(ReferenceProperty(valid_types='marking-definition', spec_version='2.1'))),
@@ -767,7 +767,7 @@ class Tool(_DomainObject):
         ('tool_version', StringProperty()),
         ('revoked', BooleanProperty(default=lambda: False)),
         ('labels', ListProperty(StringProperty)),
-        ('confidence', IntegerProperty()),
+        ('confidence', IntegerProperty(min=0, max=100)),
         ('lang', StringProperty()),
         ('external_references', ListProperty(ExternalReference)),
         ('object_marking_refs', ListProperty(ReferenceProperty(valid_types='marking-definition', spec_version='2.1'))),
@@ -793,7 +793,7 @@ class Vulnerability(_DomainObject):
         ('description', StringProperty()),
         ('revoked', BooleanProperty(default=lambda: False)),
         ('labels', ListProperty(StringProperty)),
-        ('confidence', IntegerProperty()),
+        ('confidence', IntegerProperty(min=0, max=100)),
         ('lang', StringProperty()),
         ('external_references', ListProperty(ExternalReference)),
         ('object_marking_refs', ListProperty(ReferenceProperty(valid_types='marking-definition', spec_version='2.1'))),
@@ -846,7 +846,7 @@ def CustomObject(type='x-custom-type', properties=None, extension_name=None, is_
             + [
                 ('revoked', BooleanProperty(default=lambda: False)),
                 ('labels', ListProperty(StringProperty)),
-                ('confidence', IntegerProperty()),
+                ('confidence', IntegerProperty(min=0, max=100)),
                 ('lang', StringProperty()),
                 ('external_references', ListProperty(ExternalReference)),
                 ('object_marking_refs', ListProperty(ReferenceProperty(valid_types='marking-definition', spec_version='2.1'))),
